@@ -1,20 +1,21 @@
-(* Forward simulation: if the reference evaluator gives an expression of the
-   fragment a value, the code CompileExpr places for it, started with the
-   same `$`, host state and pending operands, runs to the end of its inline
-   code with that value pushed, the same host state, and the same observable
-   trace.  By induction on the evaluator's fuel, for the three mutually
-   recursive readings (expression, list items, else-chain). *)
+(* Forward simulation: if the reference evaluator gives an expression a value
+   (or restarts the enclosing body with `^~`), the code CompileExpr places for
+   it, started with the same `$`, host state and pending operands, runs to the
+   end of its inline code with that value pushed (or to the start of the
+   enclosing body with the new `$`), with the same host state and the same
+   observable trace.  By induction on the evaluator's fuel, for its five
+   mutually recursive readings (expression, list items, else-chain, apply,
+   expression body). *)
 From Coq Require Import ZArith NArith List Bool Arith Lia.
 From GV Require Import Base.Result Base.Host Gen.Instr Gen.Exec Model.Num Model.Value Model.Machine
   Model.CompileExpr Spec.Ast Spec.Eval
-  Proofs.C01.MachineFacts Proofs.C01.Sizes Proofs.C01.Placement Proofs.C01.OpRefine Proofs.C01.Fragment Proofs.C01.Steps.
+  Proofs.C01.MachineFacts Proofs.C01.Sizes Proofs.C01.Placement Proofs.C01.Labels Proofs.C01.OpRefine Proofs.C01.Fragment Proofs.C01.Steps.
 Import ListNotations.
 
 Section Sim.
 Variable sym_hash : list N -> N.
 Variable hstate : Type.
 Variable host : hstate -> host_call -> hstate * option val.
-Hypothesis Hdef : declines_defer hstate host.
 Variable pbodies : list (N * expr).
 Variable P : program.
 
@@ -25,64 +26,139 @@ Notation J := (jt P).
 Notation eval := (eval sym_hash hstate host pbodies).
 Notation eval_items := (eval_items sym_hash hstate host pbodies).
 Notation eval_chain := (eval_chain sym_hash hstate host pbodies).
-Notation placed := (placed sym_hash C J).
-Notation placedC := (placedC sym_hash C J).
+Notation apply_val := (apply_val sym_hash hstate host pbodies).
+Notation run_body := (run_body sym_hash hstate host pbodies).
+Notation lplaced := (lplaced sym_hash C J).
+Notation lplacedC := (lplacedC sym_hash C J).
 Notation est := (st hstate).
 
 Lemma obind_done : forall (A B : Type) (o : out est A) (k : A -> est -> out est B) b s',
   obind o k = ODone b s' -> exists a s1, o = ODone a s1 /\ k a s1 = ODone b s'.
 Proof. intros A B o k b s' H. destruct o; cbn in H; try discriminate. eauto. Qed.
 
+Lemma obind_restart : forall (A B : Type) (o : out est A) (k : A -> est -> out est B) v s',
+  obind o k = ORestart v s' ->
+  o = ORestart v s' \/ exists a s1, o = ODone a s1 /\ k a s1 = ORestart v s'.
+Proof.
+  intros A B o k v s' H. destruct o; cbn in H; try discriminate;
+    [right; eauto | left; injection H as -> ->; reflexivity].
+Qed.
+
+(* the nested expression bodies of the program are in the program, each ending
+   in EndExpression, entered through the jump-table entry that is its label *)
+Definition body_ok (lbl : N) (b : expr) : Prop :=
+  exists pcb jb1 ob1 jb2,
+    nth_error J (N.to_nat lbl) = Some pcb /\
+    lplaced (N.to_nat lbl) None b pcb jb1 ob1 jb2 /\
+    nth_error C (pcb + si (sizes None b)) = Some (ins I_EndExpression) /\
+    frag b = true /\ shape_ok b = true /\ seq_ok true b = true.
+Definition bodies_ok : Prop := forall lbl b, find_body pbodies lbl = Some b -> body_ok lbl b.
+
 (* ------------------------------------------------------------ statements *)
 Definition SimEval (n : nat) : Prop :=
-  forall e vin (s : est) v s',
-  eval n e vin s = ODone v s' ->
+  forall e vin (s : est) (o : out est val),
+  eval n e vin s = o ->
   frag e = true -> shape_ok e = true ->
   forall b, seq_ok b e = true ->
-  forall cont pc j ob jb sg vs fs mt,
-  placed cont None e pc j ob jb ->
+  forall cont pcont pc j ob jb sg vs fs mt,
+  lplaced cont None e pc j ob jb ->
+  nth_error J cont = Some pcont -> pcont < length C ->
   pc + si (sizes None e) < length C ->
   observable mt = snd s ->
-  exists vin' mt',
-    star (St pc sg (vin :: vs) fs (fst s) mt)
-         (St (pc + si (sizes None e)) (v :: sg) (vin' :: vs) fs (fst s') mt') /\
-    observable mt' = snd s' /\
-    (is_seq e = false -> vin' = vin).
+  match o with
+  | ODone v s' =>
+      exists vin' mt',
+        star (St pc sg (vin :: vs) fs (fst s) mt)
+             (St (pc + si (sizes None e)) (v :: sg) (vin' :: vs) fs (fst s') mt') /\
+        observable mt' = snd s' /\
+        (is_seq e = false -> vin' = vin)
+  | ORestart v s' =>
+      exists junk mt',
+        star (St pc sg (vin :: vs) fs (fst s) mt) (St pcont (junk ++ sg) (v :: vs) fs (fst s') mt') /\
+        observable mt' = snd s'
+  | _ => True
+  end.
 
 Definition SimItems (n : nat) : Prop :=
-  forall k e vin (s : est) items s',
-  eval_items n k e vin s = ODone items s' ->
+  forall k e vin (s : est) (o : out est (list val)),
+  eval_items n k e vin s = o ->
   frag e = true -> shape_ok e = true -> seq_ok false e = true ->
-  forall cont pc j ob jb sg vs fs mt,
-  placed cont (Some k) e pc j ob jb ->
+  forall cont pcont pc j ob jb sg vs fs mt,
+  lplaced cont (Some k) e pc j ob jb ->
+  nth_error J cont = Some pcont -> pcont < length C ->
   pc + si (sizes (Some k) e) < length C ->
   observable mt = snd s ->
-  exists mt',
-    star (St pc sg (vin :: vs) fs (fst s) mt)
-         (St (pc + si (sizes (Some k) e)) (rev items ++ sg) (vin :: vs) fs (fst s') mt') /\
-    observable mt' = snd s' /\
-    length items = leaves k e.
+  match o with
+  | ODone items s' =>
+      exists mt',
+        star (St pc sg (vin :: vs) fs (fst s) mt)
+             (St (pc + si (sizes (Some k) e)) (rev items ++ sg) (vin :: vs) fs (fst s') mt') /\
+        observable mt' = snd s' /\
+        length items = leaves k e
+  | ORestart v s' =>
+      exists junk mt',
+        star (St pc sg (vin :: vs) fs (fst s) mt) (St pcont (junk ++ sg) (v :: vs) fs (fst s') mt') /\
+        observable mt' = snd s'
+  | _ => True
+  end.
 
 (* a chain of conditionals: either every condition fails and nothing is pushed,
    or an arm is taken and control arrives at the chain's join point *)
 Definition SimChain (n : nat) : Prop :=
-  forall e vin (s : est) o s',
-  eval_chain n e vin s = ODone o s' ->
+  forall e vin (s : est) (o : out est (option val)),
+  eval_chain n e vin s = o ->
   lchain e = true ->
   frag e = true -> shape_okC true e = true -> seq_ok false e = true ->
-  forall cont pc j aob ajb ob jb jj pjoin sg vs fs mt,
-  placedC true cont None e pc j aob ajb ob jb jj ->
+  forall cont pcont pc j aob ajb ob jb jj pjoin sg vs fs mt,
+  lplacedC true cont None e pc j aob ajb ob jb jj ->
+  nth_error J cont = Some pcont -> pcont < length C ->
   nth_error J jj = Some pjoin -> pjoin < length C ->
   pc + ci (csizes e) < length C ->
   observable mt = snd s ->
-  exists mt', observable mt' = snd s' /\
-    match o with
-    | None =>
+  match o with
+  | ODone None s' =>
+      exists mt', observable mt' = snd s' /\
         star (St pc sg (vin :: vs) fs (fst s) mt) (St (pc + ci (csizes e)) sg (vin :: vs) fs (fst s') mt')
-    | Some v =>
+  | ODone (Some v) s' =>
+      exists mt', observable mt' = snd s' /\
         star (St pc sg (vin :: vs) fs (fst s) mt) (St pjoin (v :: sg) (vin :: vs) fs (fst s') mt')
-    end.
+  | ORestart v s' =>
+      exists junk mt',
+        star (St pc sg (vin :: vs) fs (fst s) mt) (St pcont (junk ++ sg) (v :: vs) fs (fst s') mt') /\
+        observable mt' = snd s'
+  | _ => True
+  end.
 
-Definition SimAll (n : nat) : Prop := SimEval n /\ SimItems n /\ SimChain n.
+(* f <~ x  (or f ~~ with x = unit): from the Apply instruction to the instruction after it *)
+Definition SimApply (n : nat) : Prop :=
+  forall f x (s : est) v s',
+  apply_val n f x s = ODone v s' ->
+  forall (ea : bool) pcx sg vs fs mt,
+  (ea = true -> x = VUnit) ->
+  nth_error C pcx = Some (ins (if ea then I_EmptyApply else I_Apply)) ->
+  S pcx < length C ->
+  observable mt = snd s ->
+  exists mt',
+    star (St pcx (if ea then f :: sg else x :: f :: sg) vs fs (fst s) mt)
+         (St (S pcx) (v :: sg) vs fs (fst s') mt') /\
+    observable mt' = snd s'.
+
+(* an expression body, from its first instruction to its EndExpression (not executed) *)
+Definition SimBody (n : nat) : Prop :=
+  forall b vin (s : est) v s',
+  run_body n b vin s = ODone v s' ->
+  frag b = true -> shape_ok b = true -> seq_ok true b = true ->
+  forall cont pcb j ob jb sg vs fs mt,
+  lplaced cont None b pcb j ob jb ->
+  nth_error J cont = Some pcb ->
+  pcb + si (sizes None b) < length C ->
+  observable mt = snd s ->
+  exists junk vin' mt',
+    star (St pcb sg (vin :: vs) fs (fst s) mt)
+         (St (pcb + si (sizes None b)) (v :: junk ++ sg) (vin' :: vs) fs (fst s') mt') /\
+    observable mt' = snd s'.
+
+Definition SimAll (n : nat) : Prop :=
+  SimEval n /\ SimItems n /\ SimChain n /\ SimApply n /\ SimBody n.
 
 End Sim.
